@@ -1,5 +1,6 @@
 """C01: trust gate - no completed handshake, device setup or SPINE delivery without local trust."""
 import shipstep
+import hubstep
 
 
 
@@ -7,5 +8,5 @@ def run(tier):
     c = shipstep.run_step("C01", tier, "H_Step_C01", ("C01.", "inv."),
                           {"write_failures_per_step": 1, "pre_buffer_len_max": 1})
     c.assumptions.append("GHOST: `granted` becomes true only when a trust oracle (paired / auto-accept) answers yes, when ApprovePendingHandshake is called, or for role client (the hub dials only registered SKIs: hub part of this check and C10)")
-    # hub part added below when built
+    hubstep.run_hub(c, ["H_Hub_Step"], ("C01.",))
     return c.finish()
